@@ -8,6 +8,9 @@ CONSTANTS
   MaxNodes = 1
   MaxStack = 1
   BugOptionalDropsNone = FALSE
+  FixedStar = FALSE
+  FixedFinalInString = FALSE
+  FixedNestedLiteral = FALSE
   AnnChoices = {"noann", "int", "str", "QA", "OptInt", "ListInt", "T"}
   DefaultChoices = {"none", "int:1", "None", "..."}
   RetChoices = {"noann", "int", "QA", "None", "T"}
@@ -18,6 +21,7 @@ CONSTANTS
   MaxPos = 3
   MaxKw = 2
   BugRuntimeIgnoresKwDefaults = FALSE
+  FixedDunder = FALSE
 INVARIANT HeaderViewsAgree
 INVARIANT ViewsMatchInspect
 INVARIANT EmitHeader
